@@ -215,7 +215,12 @@ func H_C12_sign() {
 func H_C12_sign_raw_buckets() {
 	var pairs []*vNodeT
 	governed := false
-	switch vChoose("raw.what", 3) {
+	var baseProt ProtectedHeader
+	switch vChoose("raw.what", 4) {
+	case 3: // IV in one bucket (raw bytes), Partial IV in the other (parsed protected map), either way round
+		l := uint64(5 + vChoose("raw.ivl", 2))
+		pairs = []*vNodeT{nnInt(0, l, -1), nnBstr(vBlobN("raw.iv", 1, 16), -1)}
+		baseProt = ProtectedHeader{int64(11 - l): vBlobN("raw.otheriv", 1, 16)}
 	case 1:
 		l := []uint64{3, 258, 259, 260}[vChoose("raw.gl", 4)]
 		pairs = []*vNodeT{nnInt(0, l, vWidth("raw.kw", l)), nnInt(0, 1, -1)}
@@ -226,7 +231,7 @@ func H_C12_sign_raw_buckets() {
 		pairs = []*vNodeT{nnInt(0, l, vWidth("raw.kw", l)), nnBstr(vBlob("raw.ov"), -1)}
 	}
 	c12BaseGoverned = 0
-	h := Headers{RawUnprotected: vSer(nnMap(pairs, vWidth("raw.mw", uint64(len(pairs)/2))))}
+	h := Headers{RawUnprotected: vSer(nnMap(pairs, vWidth("raw.mw", uint64(len(pairs)/2)))), Protected: baseProt}
 	// headers taken from a decoded message carry the parsed map as well (possibly edited since)
 	umap := map[any]any{}
 	switch vChoose("raw.withmap", 3) {
